@@ -1336,6 +1336,26 @@ def run_callee(chk, F, collectors, rid="R-CALLEE"):
                         tested.add(y["name"])
             if isinstance(n, dict) and n.get("k") == "case" and isinstance(n.get("v"), dict):
                 tested.add(n["v"].get("name"))
+        # the process operand of a DOT callee is any expression of process type the builder creates: the name of a
+        # process or an element of a process set, `P(i)`, which expr_call_end builds as ARRAY over the name.  The
+        # resolution must reach the instance through get_symbol() (which descends through ARRAY), not restrict the
+        # operand to a plain identifier.
+        narrowed = []
+        for n in walk(body):
+            n = strip(n) if isinstance(n, dict) else n
+            if isinstance(n, dict) and n.get("k") == "bin" and n.get("op") in ("==", "!="):
+                for x, y in ((n["lhs"], n["rhs"]), (n["rhs"], n["lhs"])):
+                    x, y = strip(x), strip(y)
+                    if isinstance(x, dict) and x.get("k") == "call" and x.get("name") == "get_kind" and \
+                            isinstance(y, dict) and y.get("dk") == "enumerator" and y.get("name") == "IDENTIFIER":
+                        r = short(x.get("recv")) if x.get("recv") is not None else ""
+                        if r.count("[0]") + r.count("get(0)") >= 2 or "[0]" in r:
+                            narrowed.append((r, x.get("l")))
+        chk.ob(rid, "%s|process operand" % name, not narrowed,
+               "%s resolves the callee `X.f` only when X is a plain identifier (`%s.get_kind()` compared with IDENTIFIER, "
+               "line %s): an element of a process set, `P(1).f()`, is ARRAY over the name of the set, so the writes / reads of "
+               "f are not counted there" % (fn["q"], narrowed[0][0] if narrowed else "", narrowed[0][1] if narrowed else ""),
+               "%s:%s" % (fn["file"], fn["line"]), sample="%s: the process operand of a DOT callee is not restricted by kind" % name)
         for sh in sorted(shapes):
             chk.ob(rid, "%s|%s" % (name, sh), sh in tested,
                    "%s takes the function summary of a call from the symbol of the callee without a branch for the "
@@ -1528,3 +1548,148 @@ def run_argsibling(chk, F, rid="R-ARGSIBLING"):
                "parameter `const int n` is accepted there" %
                (name, inst, "no lookup in the mapping" if not look else "missing: %s" % ", ".join(sorted(need - tests))),
                "%s:%s" % (fn["file"], fn["line"]), sample="%s checks the bound arguments" % name)
+
+
+# ---------------------------------------------------------------------------------------------- R-CONSTSTICKY
+def run_conststicky(chk, F, rid="R-CONSTSTICKY"):
+    """A `const` anywhere on the way to the base type makes the object constant: behind a typedef name (LABEL), a range, a
+    reference, a prefix (urgent, broadcast, meta ..) or as the element type of an array.  type_t::is_mutable / is_constant
+    must give the answer of the wrapped type for every kind that type_t::is() itself looks through, and for ARRAY.  (Found
+    missing by a round-7 sub-agent: the catch-all of is_mutable rewritten as a list of wrapper kinds without LABEL made
+    `typedef const int cint_t; cint_t c; c = 2;` acceptable.)"""
+    from ..inline import KindSlicer, strip
+    chk.rule(rid, "for every wrapper kind W - what type_t::is() looks through (RANGE, REF, LABEL, the prefix kinds) and "
+                  "ARRAY - type_t::is_mutable(W(t)) and type_t::is_constant(W(t)) are exactly the answers for t (per-kind "
+                  "slice of the switch, evaluated with is_prefix() decided by type_t::is_prefix's own switch)")
+    isf = F.fn("UTAP::type_t::is")
+    through = set()
+    for n in walk(isf["body"]):
+        if n.get("k") == "bin" and n.get("op") == "&&":
+            l, r = strip(n["lhs"]), strip(n["rhs"])
+            if isinstance(l, dict) and l.get("k") == "bin" and l.get("op") == "==" and isinstance(r, dict) and \
+                    r.get("k") == "call" and r.get("name") == "is":
+                for x in (strip(l["lhs"]), strip(l["rhs"])):
+                    if isinstance(x, dict) and x.get("dk") == "enumerator":
+                        through.add(x["name"])
+    if not {"RANGE", "REF", "LABEL"} <= through:
+        raise AnalysisBroken("type_t::is: the kinds it looks through were not found (%s)" % sorted(through))
+    pf = F.fn("UTAP::type_t::is_prefix")
+    not_prefix = set()
+    dflt = None
+    for labels, stmts in switch_cases(pf):
+        val = None
+        for n in walk({"k": "block", "s": stmts}):
+            if n.get("k") == "return" and (n.get("e") or {}).get("k") == "bool":
+                val = n["e"]["v"]
+                break
+        if "default" in labels:
+            dflt = val
+        if val is False:
+            not_prefix.update(l for l in labels if l != "default")
+    if dflt is not True or "INT" not in not_prefix:
+        raise AnalysisBroken("type_t::is_prefix is not `false for the listed kinds, true otherwise`")
+    prefixes = [k for k in ("CONSTANT", "URGENT", "BROADCAST", "COMMITTED", "HYBRID", "SYSTEM_META") if k not in not_prefix]
+    if len(prefixes) < 5:
+        raise AnalysisBroken("prefix kinds not confirmed by is_prefix (%s)" % prefixes)
+    wrappers = sorted(through) + ["ARRAY"] + [k for k in prefixes if k != "CONSTANT"]
+
+    def ev(e, K, self_name):
+        """True / False / 'child' (the answer of the wrapped type) / None"""
+        e = strip(e)
+        if not isinstance(e, dict):
+            return None
+        k = e.get("k")
+        if k == "bool":
+            return bool(e["v"])
+        if k == "un" and e.get("op") == "!":
+            v = ev(e["e"], K, self_name)
+            return (not v) if isinstance(v, bool) else None
+        if k == "bin" and e.get("op") in ("||", "&&"):
+            a, b = ev(e["lhs"], K, self_name), ev(e["rhs"], K, self_name)
+            if e["op"] == "||":
+                if a is True or b is True:
+                    return True
+                if a is False:
+                    return b
+                if b is False:
+                    return a
+            else:
+                if a is False or b is False:
+                    return False
+                if a is True:
+                    return b
+                if b is True:
+                    return a
+            return None
+        if k == "bin" and e.get("op") in ("==", "!=", ">", "<", ">=", "<="):
+            txt = short(e)
+            if "size()" in txt:         # a wrapper has its wrapped type as child 0
+                l, r = strip(e["lhs"]), strip(e["rhs"])
+                if isinstance(r, dict) and r.get("k") == "int" and isinstance(l, dict) and l.get("k") == "call" and l.get("name") == "size":
+                    n_ = 1 if K not in ("RANGE", "ARRAY") else (3 if K == "RANGE" else 2)
+                    return {"==": n_ == r["v"], "!=": n_ != r["v"], ">": n_ > r["v"], "<": n_ < r["v"],
+                            ">=": n_ >= r["v"], "<=": n_ <= r["v"]}[e["op"]]
+            return None
+        if k == "call":
+            if e.get("name") == "is_prefix":
+                return K not in not_prefix
+            if e.get("name") == self_name:
+                r = strip(e.get("recv")) if e.get("recv") is not None else None
+                if isinstance(r, dict) and r.get("k") == "call" and r.get("name") in ("get", "operator[]") and r.get("args") and \
+                        strip(r["args"][-1]).get("k") == "int" and strip(r["args"][-1]).get("v") == 0:
+                    return "child"
+                if isinstance(r, dict) and r.get("k") == "call" and r.get("name") in ("get_sub", "strip") and not r.get("args"):
+                    return "child"
+            return None
+        return None
+    for mname in ("is_mutable", "is_constant"):
+        m = F.fn("UTAP::type_t::" + mname)
+        sl = KindSlicer(F, m, subject="this")
+        for K in wrappers:
+            body = sl.slice(K)
+            rets = [n for n in walk(body) if n.get("k") == "return" and n.get("e") is not None]
+            vals = [ev(r["e"], K, mname) for r in rets]
+            ok = len(rets) == 1 and vals[0] == "child"
+            chk.ob(rid, "type_t::%s|%s" % (mname, K), ok,
+                   "type_t::%s gives %s for a %s type instead of the answer of the type it wraps (`%s`): a `const` behind "
+                   "%s is %s" % (mname, vals, K, short(rets[0]["e"])[:60] if rets else "no return",
+                                 "a typedef name" if K == "LABEL" else "a %s" % K.lower(),
+                                 "lost - the object can be written" if mname == "is_mutable" else "not seen"),
+                   "%s:%s" % (m["file"], m["line"]), sample="%s(%s(t)) == %s(t)" % (mname, K, mname))
+
+
+# ---------------------------------------------------------------------------------------------- R-SUMMARYORDER
+def run_summaryorder(chk, F, rid="R-SUMMARYORDER"):
+    """function_t::changes / ::depends are filled by TypeChecker::visitFunction when the type checker reaches the function;
+    a gate evaluated earlier sees a call of it as reading and writing nothing.  Within one scope declaration-before-use
+    guarantees the order.  Across templates there is one way to call a function of another template from a model:
+    `p.f()` with p bound to a process of a dynamic template (DYNAMIC_EVAL callee, R-CALLEE) - so the functions of the
+    dynamic templates have to be visited before the templates that can call them.  (Round 7, seen by a sub-agent on the
+    unmodified tree: `guard forall (p : Child) (p.h() > 0)` with a writing h was accepted in a static template.)"""
+    chk.rule(rid, "Document::accept hands the dynamic templates to the visitor before the other templates: the type "
+                  "checker summarises the functions of a template (what they read and write) when it visits it, and the "
+                  "gates of every other template consult those summaries for calls `p.f()`")
+    acc = F.fn("UTAP::Document::accept")
+    loops = []
+    for n in walk(acc["body"]):
+        if n.get("k") in ("rangefor", "for") and any(c.get("name") == "visitTemplate" for c in calls(n)):
+            rng = short(n.get("range") or n.get("init") or {})
+            loops.append((n.get("l") or 0, "dyn" if "dyn" in rng else "static", rng))
+    if len(loops) < 2:
+        raise AnalysisBroken("Document::accept: the two template loops were not found (%s)" % loops)
+    loops.sort()
+    first_dyn = min((l for l, k, _ in loops if k == "dyn"), default=None)
+    first_static = min((l for l, k, _ in loops if k == "static"), default=None)
+    if first_dyn is None or first_static is None:
+        raise AnalysisBroken("Document::accept: cannot tell the dynamic from the static template loop (%s)" % loops)
+    # the premise: the collectors do resolve p.f()
+    cw = F.fn("UTAP::expression_t::collect_possible_writes")
+    from ..inline import KindSlicer
+    body = KindSlicer(F, cw, subject="this").slice("FUN_CALL")
+    premise = any(x.get("dk") == "enumerator" and x.get("name") == "DYNAMIC_EVAL" for x in walk(body))
+    chk.ob(rid, "accept|dynamic templates first", (first_dyn < first_static) or not premise,
+           "Document::accept visits the static templates (line %s) before the dynamic ones (line %s): when the guards and "
+           "invariants of a static template are checked, function_t::changes of the functions of the dynamic templates is "
+           "still empty, so `forall (p : Child) (p.h() > 0)` with a writing h passes the side-effect gate" %
+           (first_static, first_dyn), "%s:%s" % (acc["file"], first_static),
+           sample="dynamic templates (line %s) are visited before the static ones (line %s)" % (first_dyn, first_static))
